@@ -25,6 +25,14 @@ def perturb(m, rng, amp=1 / 16.0):
     return fem.Mesh(P, m.cells, m.cell_type)
 
 
+def centre_numbered():
+    base = fem.Rectangle(n=3)
+    cells = np.array([[4, 3, 0, 1], [4, 1, 2, 5], [4, 7, 6, 3], [4, 5, 8, 7]])
+    region = fem.RegionQuad(fem.Mesh(base.points, cells, "quad"))
+    fem.FieldDual(region, disconnect=False)
+    return region
+
+
 def main():
     a = args()
     out = Out(a)
@@ -106,7 +114,10 @@ def main():
                            ("hex20", lambda: fem.RegionQuadraticHexahedron(perturb(fem.Cube(n=2), rng).add_midpoints_edges())),
                            # (families whose dual region is cell-wise constant; the tri-quadratic hexahedron has a linear dual)
                            ("quad", lambda: fem.RegionQuad(perturb(fem.Rectangle(n=4), rng))),
-                           ("quad8", lambda: fem.RegionQuadraticQuad(fem.Rectangle(n=3).add_midpoints_edges()))):
+                           ("quad8", lambda: fem.RegionQuadraticQuad(fem.Rectangle(n=3).add_midpoints_edges())),
+                           # all cells numbered from one common point, and a CONNECTED dual field of the same region class requested
+                           # before (its option must not leak into the mixed fields built afterwards)
+                           ("quadcentre", lambda: centre_numbered())):
           rid = "condensed-%s-%d" % (fam, rep)
           if out.want(rid) and (fam == "hex" or rep == 0):
             bulk = float([8.0, 20.0, 64.0, 200.0][rep % 4])
